@@ -280,11 +280,26 @@ class Translator:
         info.coqname = coqname
         idxs = self.all_idx(ix)
         gens = list(getattr(item, "generics", []))
-        rty = self.rtype(item.ret, ix, gens) if item.ret else ("unit",)
+        if mode[0] == "selfpair":
+            gens = []
+        # fn-level generic parameters bounded by AsRef<[u8]> are byte strings
+        fg = getattr(item, "fn_gen", [])
+        asref = set()
+        if ("id", "AsRef") in fg:
+            from rustfun_parse import generic_names
+            asref = set(generic_names(fg))
+        try:
+            rty = self.rtype(item.ret, ix, gens) if item.ret else ("unit",)
+        except Untranslatable:
+            if mode[0] != "selfpair":
+                raise
+            rty = ("unit",)
         if rty == ("self",):
             rty = self.self_type(ix, item.owner)
         ctx = Ctx(self, ix, item.owner, erase(rty), mode, opt)
         ctx.gens = gens
+        if mode[0] == "selfpair":
+            ctx.rty = ("tuple", tuple(("enum", "Bound", ()) for _ in mode[1]))
         env = {"%decl": frozenset()}
         params = []
         for g in gens:
@@ -328,7 +343,7 @@ class Translator:
                             fty = self.rtype(ft, ix, gens)
                         except Untranslatable:
                             continue
-                        if erase(fty) in INT_BITS or fty == "bool" or fty == ("bytes",):
+                        if erase(fty) in INT_BITS or fty == "bool" or fty == ("bytes",) or (mode[0] == "selfpair" and f in mode[1]):
                             g = ctx.fresh("self_" + f)
                             env["self." + f] = self.param_value(g, fty, "self." + f)
                             params.append((g, coq_type(erase(fty)), fty))
@@ -340,6 +355,8 @@ class Translator:
                 ty = self.rtype(pt, ix, gens)
             except Untranslatable:
                 ty = ("named", "?")
+            if len(pt) == 1 and pt[0][0] == "id" and pt[0][1] in asref:
+                ty = ("bytes",)
             if ty == ("bytes",) and params_decl is not None:
                 ty = ("slice",)              # position functions only ever use the length of the data
             if pn == "_":
@@ -1103,6 +1120,9 @@ class Translator:
         if k[0] == "cont":
             pre, v = self.expr(e, env, ctx)
             return wrap(pre, k[1](env))
+        if ctx.mode[0] == "selfpair" and k[0] == "fnend" and e == ("path", ["self"]):
+            vs = [env["self." + f] for f in ctx.mode[1]]
+            return ("ret", "(%s)" % ", ".join(v.code for v in vs))
         # leaf value
         exp = ctx.rty if k[0] == "fnend" else k[1].get("exp")
         pre, v = self.expr(e, env, ctx, exp if not isinstance(exp, tuple) else None)
